@@ -475,6 +475,9 @@ func (c *compiler) compileQueryUpdate(l, r *Query, op Operator) error {
 	case OpAssign:
 		// optimize assignment operator with constant indexing and slicing
 		//   .foo.[0].[1:2] = f => setpath(["foo",0,{"start":1,"end":2}]; f)
+		if verifSkip(verifSiteAssignSetpath) {
+			return c.compileFunc(&Func{Name: op.getFunc(), Args: []*Query{l, r}})
+		}
 		if xs := l.toIndices(nil); xs != nil {
 			// ref: compileCall
 			v := c.newVariable()
@@ -559,6 +562,10 @@ func (c *compiler) compileBind(l, r *Query, patterns []*Pattern) error {
 	}
 	if len(patterns) > 1 {
 		pc = len(c.codes)
+	}
+	if len(patterns) == 1 && c.codes[len(c.codes)-2].op == opexpbegin && verifSkip(verifSiteBindExp) {
+		c.append(&code{op: opexpend})
+		return c.compileQuery(r)
 	}
 	if len(patterns) == 1 && c.codes[len(c.codes)-2].op == opexpbegin {
 		c.codes[len(c.codes)-2].op = opnop
@@ -645,6 +652,9 @@ func (c *compiler) compileIf(e *If) error {
 		return err
 	}
 	f()
+	if pc == len(c.codes) && verifSkip(verifSiteIfEmptyCond) {
+		c.append(&code{op: opnop})
+	}
 	if pc == len(c.codes) {
 		c.codes = c.codes[:pc-1]
 	} else {
@@ -672,6 +682,9 @@ func (c *compiler) compileIf(e *If) error {
 			// optimize constant results
 			//    opdup, ..., opjumpifnot, opconst, opjump, opconst
 			// => opnop, ..., opjumpifnot, oppush,  opjump, oppush
+			if verifSkip(verifSiteIfConst) {
+				return
+			}
 			if pcc+4 == len(c.codes) &&
 				c.codes[pcc+1] != nil && c.codes[pcc+1].op == opconst &&
 				c.codes[pcc+3] != nil && c.codes[pcc+3].op == opconst {
@@ -857,6 +870,12 @@ func (c *compiler) compileTerm(e *Term) error {
 }
 
 func (c *compiler) compileIndex(e *Term, x *Index) error {
+	if x.toIndexKey() != nil && verifSkip(verifSiteIndexKey) {
+		if x.Name != "" {
+			x = &Index{Str: &String{Str: x.Name}}
+		}
+		goto generic
+	}
 	if k := x.toIndexKey(); k != nil {
 		if err := c.compileTerm(e); err != nil {
 			return err
@@ -865,6 +884,7 @@ func (c *compiler) compileIndex(e *Term, x *Index) error {
 		c.append(&code{op: opindex, v: k})
 		return nil
 	}
+generic:
 	c.appendCodeInfo(x)
 	if x.Str != nil {
 		return c.compileCall("_index", []*Query{{Term: e}, {Term: &Term{Type: TermTypeString, Str: x.Str}}})
@@ -1308,6 +1328,9 @@ func (c *compiler) compileObject(e *Object) error {
 		}
 	}
 	c.append(&code{op: opobject, v: len(e.KeyVals)})
+	if verifSkip(verifSiteConstObject) {
+		return nil
+	}
 	// optimize constant objects
 	l := len(e.KeyVals)
 	if pc+l*3+1 != len(c.codes) {
@@ -1408,6 +1431,9 @@ func (c *compiler) compileArray(e *Array) error {
 	if e.Query.Op == OpPipe {
 		return nil
 	}
+	if verifSkip(verifSiteConstArray) {
+		return nil
+	}
 	// optimize constant arrays
 	if (len(c.codes)-pc)%3 != 0 {
 		return nil
@@ -1431,10 +1457,14 @@ func (c *compiler) compileArray(e *Array) error {
 
 func (c *compiler) compileUnary(e *Unary) error {
 	c.appendCodeInfo(e)
+	if verifSkip(verifSiteUnaryNumber) {
+		goto generic
+	}
 	if v := e.toNumber(); v != nil {
 		c.append(&code{op: opconst, v: v})
 		return nil
 	}
+generic:
 	if err := c.compileTerm(e.Term); err != nil {
 		return err
 	}
@@ -1584,6 +1614,12 @@ func (c *compiler) compileCallInternal(
 		if err := c.compileFuncDef(&FuncDef{Name: name, Body: args[i]}, false); err != nil {
 			return err
 		}
+		if internal && verifSkipInline(len(c.codes)-pc) {
+			c.append(&code{op: opload, v: v})
+			c.append(&code{op: oppushpc, v: pc})
+			c.append(&code{op: opcallpc})
+			goto inlined
+		}
 		if internal {
 			switch len(c.codes) - pc {
 			case 2: // optimize identity argument (opscope, opret)
@@ -1613,6 +1649,11 @@ func (c *compiler) compileCallInternal(
 			}
 		} else {
 			c.append(&code{op: oppushpc, v: pc})
+		}
+	inlined:
+		if i == indexing && c.codes[len(c.codes)-2].op == opexpbegin && verifSkip(verifSiteCallExp) {
+			c.append(&code{op: opexpend})
+			continue
 		}
 		if i == indexing {
 			if c.codes[len(c.codes)-2].op == opexpbegin {
@@ -1670,6 +1711,9 @@ L:
 				case opjump:
 					j = c.codes[j].v.(int)
 				case opret:
+					if verifSkip(verifSiteTailRec) {
+						continue L
+					}
 					if canjump {
 						code.op = opjump
 						code.v = pcs[len(pcs)-1] + 1
@@ -1697,13 +1741,22 @@ func (c *compiler) optimizeCodeOps() {
 		case oppush, opdup, opload:
 			switch next.op {
 			case oppop:
+				if verifSkip(verifSitePeepPop) {
+					break
+				}
 				code.op = opnop
 				next.op = opnop
 			case opconst:
+				if verifSkip(verifSitePeepConst) {
+					break
+				}
 				code.op = opnop
 				next.op = oppush
 			}
 		case opjump, opjumpifnot:
+			if verifSkip(verifSitePeepJump) {
+				break
+			}
 			if j := code.v.(int); j-1 == i {
 				code.op = opnop
 			} else if next = c.codes[j]; next.op == opjump {
